@@ -3,6 +3,8 @@ SPECIFICATION Spec
 CONSTANTS
   ChSC <- Ch_U
   ChCS <- Ch_U
+  SeqBase = 0
+  MidBase = 0
   Budget = 100
   Workload <- WL_U_150_50
   MaxFlushS = 0
